@@ -396,6 +396,9 @@ impl PassManager {
         // Verify before we start
         ir.verify()?;
 
+        #[cfg(fuellabs_sway_verif)]
+        verif::emit("initial", "", false, ir);
+
         let mut global_modified = false;
 
         for _ in 0..options.rounds {
@@ -411,6 +414,9 @@ impl PassManager {
 
                 // run the pass
                 let modified = self.actually_run(ir, pass)?;
+
+                #[cfg(fuellabs_sway_verif)]
+                verif::emit("pass", pass, modified, ir);
 
                 // Save IR after optimisation only when forcing verification
                 let ir_after = if options.force_verify_ir {
@@ -619,4 +625,27 @@ pub fn insert_after_each(pg: PassGroup, pass: &'static str) -> PassGroup {
     }
 
     PassGroup(insert_after_each_rec(pg, pass))
+}
+
+/// Verification hook H2: an installable tracer called with the IR before the first and after
+/// every pass of `PassManager::run`.
+#[cfg(fuellabs_sway_verif)]
+pub mod verif {
+    use crate::Context;
+    use std::sync::RwLock;
+
+    /// (stage, pass name, `modified` as reported by the pass, IR)
+    pub type PassTracer = Box<dyn Fn(&str, &str, bool, &Context) + Send + Sync>;
+    static TRACER: RwLock<Option<PassTracer>> = RwLock::new(None);
+
+    pub fn set_pass_tracer(t: Option<PassTracer>) {
+        *TRACER.write().unwrap_or_else(|e| e.into_inner()) = t;
+    }
+
+    pub(super) fn emit(stage: &str, pass: &str, modified: bool, ir: &Context) {
+        let guard = TRACER.read().unwrap_or_else(|e| e.into_inner());
+        if let Some(t) = guard.as_ref() {
+            t(stage, pass, modified, ir);
+        }
+    }
 }
